@@ -12,15 +12,18 @@ type ReadFS struct {
 
 // OpenFile implements the same method as documented on sys.FS
 func (r *ReadFS) OpenFile(path string, flag experimentalsys.Oflag, perm fs.FileMode) (experimentalsys.File, experimentalsys.Errno) {
-	// Mask the mutually exclusive bits as they determine write mode.
-	switch flag & (experimentalsys.O_RDONLY | experimentalsys.O_WRONLY | experimentalsys.O_RDWR) {
-	case experimentalsys.O_WRONLY, experimentalsys.O_RDWR:
+	// Mask the mutually exclusive bits as they determine write mode. Any of them being set
+	// (including both, which is not a valid mode) is a request to write.
+	if flag&(experimentalsys.O_WRONLY|experimentalsys.O_RDWR) != 0 {
 		// Return the correct error if a directory was opened for write.
 		if flag&experimentalsys.O_DIRECTORY != 0 {
 			return nil, experimentalsys.EISDIR
 		}
 		return nil, experimentalsys.ENOSYS
-	default: // sys.O_RDONLY (integer zero) so we are ok!
+	}
+	// sys.O_RDONLY (integer zero): creating or truncating still modifies the file system.
+	if flag&(experimentalsys.O_CREAT|experimentalsys.O_TRUNC) != 0 {
+		return nil, experimentalsys.ENOSYS
 	}
 
 	f, errno := r.FS.OpenFile(path, flag, perm)
